@@ -648,3 +648,150 @@ func scenarioLossyPosts(o *common.Opts, idx int, st *stats) string {
 	st.scenarios++
 	return ""
 }
+
+// scenarioBigLog (C08): the log outgrows the page sizes raft works with (1 MB per append message and per batch of
+// committed entries). A follower is killed, values between a few bytes and 900 KB are acknowledged while it is away
+// and the ordinary small writes go on; it returns and is fed the log page by page while new small entries keep
+// arriving; then every node is killed and restarted under load, so each replays a log of several pages while the new
+// leader's appends arrive. Every acknowledged write - small or large - must be on every node, once, unchanged.
+func scenarioBigLog(o *common.Opts, idx int, st *stats) string {
+	dir := filepath.Join(o.Work, fmt.Sprintf("c08big-%d", idx))
+	c, err := cluster.New(dir, 3, false, nil)
+	if err != nil {
+		return err.Error()
+	}
+	defer c.Stop()
+	if !*fKeep {
+		defer os.RemoveAll(dir)
+	}
+	if err := c.StartAll(); err != nil {
+		return "start: " + err.Error()
+	}
+	if !c.WaitAllWritable(120 * time.Second) {
+		return "cluster did not become writable"
+	}
+	tag := "biglog"
+	r := rand.New(rand.NewSource(o.Seed*86028121 + int64(idx)))
+	lead := 0
+	for t := 0; t < 100 && lead == 0; t++ {
+		lead = currentLeader(c)
+		time.Sleep(100 * time.Millisecond)
+	}
+	if lead == 0 {
+		return "no leader announced"
+	}
+	victim := lead%3 + 1
+	w := newWorkload(c)
+	w.rate = 200
+	w.retry = 3 * time.Millisecond
+	w.simple = true
+	wg := w.run(1, o.Seed*7907+int64(idx))
+	time.Sleep(800 * time.Millisecond)
+	c.Kill(victim)
+	st.nemesis++
+	// large and small values through the leader; sizes chosen so that a page boundary falls before a large entry
+	// while the next small one would still fit
+	sizes := []int{400 << 10, 120, 700 << 10, 50 << 10, 400 << 10, 300, 900 << 10, 17, 400 << 10, 400 << 10, 64, 400 << 10, 250 << 10, 9}
+	r.Shuffle(len(sizes), func(i, j int) { sizes[i], sizes[j] = sizes[j], sizes[i] })
+	type big struct {
+		key string
+		val []byte
+	}
+	var acked []big
+	bulk := func(addr string, from, to int) bool {
+		cl, err := respc.Dial(addr, 5*time.Second)
+		if err != nil {
+			return false
+		}
+		defer cl.Close()
+		cl.Timeout = 30 * time.Second
+		for i := from; i < to; i++ {
+			val := make([]byte, sizes[i])
+			for j := range val {
+				val[j] = byte('a' + (i*31+j*7+j/251)%26)
+			}
+			copy(val, fmt.Sprintf("big%d|", i))
+			key := fmt.Sprintf("big:%d:%d", idx, i)
+			v, err := cl.DoB([][]byte{[]byte("SET"), []byte(key), val})
+			if err != nil {
+				return false // effect unknown: not recorded as acknowledged
+			}
+			if v.Kind == '+' {
+				acked = append(acked, big{key, val})
+			}
+			time.Sleep(time.Duration(20+r.Intn(60)) * time.Millisecond)
+		}
+		return true
+	}
+	half := len(sizes) / 2
+	bulk(c.Nodes[lead-1].Addr(), 0, half)
+	// the follower returns and is fed what it missed, page by page, while writes of both kinds continue
+	if err := c.StartNode(victim); err != nil {
+		report(witness{Kind: "restart-failed", Detail: fmt.Sprintf("%s: node %d does not restart: %v\n%s", tag, victim, err, tailN(c.NodeLog(victim, 6000), 2500)), Sig: "node-does-not-restart|" + tag + "|" + crashClass(c.NodeLog(victim, 8000))})
+		return ""
+	}
+	st.restarts++
+	bulk(c.Nodes[lead-1].Addr(), half, len(sizes))
+	c.WaitWritable(victim, 120*time.Second)
+	st.kinds["biglog:follower-catches-up-over-several-pages"]++
+	// everybody is killed and comes back under load: each node replays several pages of committed entries while the
+	// new leader's appends arrive
+	for _, nd := range c.Nodes {
+		nd.Srv.Signal(syscall.SIGKILL)
+	}
+	for _, nd := range c.Nodes {
+		c.Kill(nd.ID)
+	}
+	order := r.Perm(3)
+	for _, k := range order {
+		id := k + 1
+		if err := c.StartNode(id); err != nil {
+			report(witness{Kind: "restart-failed", Detail: fmt.Sprintf("%s: node %d does not start from its own files: %v\n%s", tag, id, err, tailN(c.NodeLog(id, 6000), 2500)), Sig: "node-does-not-restart|" + tag + "|" + crashClass(c.NodeLog(id, 8000))})
+			return ""
+		}
+		st.restarts++
+	}
+	st.kinds["biglog:kill-all-replay-over-several-pages"]++
+	c.WaitAllWritable(180 * time.Second)
+	time.Sleep(1500 * time.Millisecond)
+	atomic.StoreInt32(&w.stop, 1)
+	wg.Wait()
+	st.open += int(w.timeouts)
+	ok, why := quiesce(c, w.led, tag, 240*time.Second)
+	checkElectionLog(c, st, tag)
+	if !ok {
+		if why == "cluster did not serve writes within the bound" && len(bySigSnapshot()) == 0 {
+			return why + clusterDiag(c)
+		}
+		return ""
+	}
+	for _, nd := range c.Nodes {
+		cl, err := respc.Dial(nd.Addr(), 5*time.Second)
+		if err != nil {
+			continue
+		}
+		cl.Timeout = 30 * time.Second
+		for _, b := range acked {
+			v, err := cl.Do("GET", b.key)
+			if err != nil {
+				break
+			}
+			st.bigChecked++
+			if v.Nil || string(v.Str) != string(b.val) {
+				got := fmt.Sprintf("%d bytes", len(v.Str))
+				if v.Nil {
+					got = "nothing"
+				} else if len(v.Str) == len(b.val) {
+					got += " (content differs)"
+				}
+				report(witness{Kind: "lost-write", Detail: fmt.Sprintf("%s: node %d: SET %s (%d bytes) was acknowledged; the node now holds %s", tag, nd.ID, b.key, len(b.val), got), Sig: "lost-acknowledged-large-value|" + tag})
+				break
+			}
+		}
+		cl.Close()
+	}
+	checkLinearizable(w, st, tag)
+	st.ops += int(w.done)
+	st.scenarios++
+	return ""
+}
